@@ -103,6 +103,11 @@ fn skew_calls(g: &mut dyn DynGen, n: u64, k: u64) -> Result<(), SutFail> {
             6 => Call::Fill(0),
             8 => Call::Fill(72),
             9 => Call::Fill(200),
+            10 => Call::Fill(1),
+            11 => Call::Fill(2),
+            12 => Call::Fill(5),
+            13 => Call::Fill(6),
+            14 => Call::Fill(7),
             _ => Call::Fill(16),
         };
         super::c05::do_call(g, c)?;
@@ -121,6 +126,8 @@ fn words32(n: u64, k: u64) -> u64 {
         6 => 0,
         8 => 18,
         9 => 50,
+        10 | 11 => 1,
+        12 | 13 | 14 => 2,
         _ => 4,
     }
 }
@@ -220,7 +227,22 @@ impl Scenario for C10 {
                 ops.extend(gen_suffix(rng, kind, 12));
                 spec.ops = ops;
                 // (na, kindA, nb, kindB): advance one side / both sides by different call shapes
-                spec.aux = match rng.below(11) {
+                spec.aux = match rng.below(13) {
+                    // the same number of BYTES handed out on both sides, a different number of words consumed (a
+                    // position derived from a byte count): 4 x fill(1) vs next_u32, 2 x fill(2) vs fill(4), ...
+                    11 | 12 => rng
+                        .pick(&[
+                            [4u64, 10, 1, 1],
+                            [2, 11, 1, 4],
+                            [8, 10, 1, 2],
+                            [4, 5, 3, 4],
+                            [2, 12, 10, 10],
+                            [4, 13, 3, 3],
+                            [8, 14, 7, 3],
+                            [2, 11, 4, 10],
+                            [1, 4, 4, 10],
+                        ])
+                        .to_vec(),
                     // the same seed, positions a whole number of 64-block spans apart (1024 words for HC-128):
                     // same buffer index, counters that only matter modulo something agree
                     9 => vec![rng.range(1, 3) * 64 * kind.block_words().max(1) as u64, 1, 0, 1],
@@ -338,7 +360,7 @@ impl Scenario for C10 {
     }
 
     fn rule(&self) -> String {
-        "Each run is one of: (clone) a C05-style prefix history on one of the 19 deterministic types, so that forks happen mid-block and with a half pending, then clone(), `fork == original` where == exists, then a suffix of next_u32/next_u64/fill_bytes/jump/long_jump applied to both in lock-step (identical results, still equal after every op, 2-block drain); (the clone is made with clone() or, in a third of the runs, with clone_from() into an unrelated generator of the same type that is already in use); (two_seeds) two generators or cores built from DIFFERENT, often near-equal (one flipped bit) seeds through any route, compared fresh or after the same public history: if == says equal their futures must be identical; (skew) the converse: after the fork the two sides are advanced by different call shapes (one next_u32, d words inside the block, one whole block, next_u64 vs two next_u32, fill(8) vs two fill(4), random), then `a == b` is evaluated: if it says equal both must have identical futures under the probe suffix, and two Hc128Rng at different read positions of the same block must compare unequal; (bitflip) one bit - or the same bit (mostly the top bit) of two different words, differences that cancel in a checksum-style comparison - of the stored bincode image of a non-buffered generator or of IsaacCore/Isaac64Core is flipped (anywhere, or in the trailing scalar fields a/b/c) and the image deserialised: if original == flipped their futures must be identical; (core) Hc128Core/IsaacCore/Isaac64Core: clone (made with clone(), or with clone_from() into an unrelated core of the same or another age) == original, identical generate() blocks in lock-step, and cores compared after one side ran k extra generate() calls; (isaac_array) two result buffers differing in exactly one element must be unequal, equal contents equal. distinct_nontrivial = distinct (type, fork buffer index, half flag, pair-construction kind, == verdict) signatures. `==`/`!=` are probed per type (a type that gains PartialEq is compared from then on) and every `==` is also evaluated on clones placed at offsets 0/4/8/12 modulo 16 of one heap block: verdicts that disagree are a violation. Skews include next_u32 vs next_u64 (same index, different half flag).".into()
+        "Each run is one of: (clone) a C05-style prefix history on one of the 19 deterministic types, so that forks happen mid-block and with a half pending, then clone(), `fork == original` where == exists, then a suffix of next_u32/next_u64/fill_bytes/jump/long_jump applied to both in lock-step (identical results, still equal after every op, 2-block drain); (the clone is made with clone() or, in a third of the runs, with clone_from() into an unrelated generator of the same type that is already in use); (two_seeds) two generators or cores built from DIFFERENT, often near-equal (one flipped bit) seeds through any route, compared fresh or after the same public history: if == says equal their futures must be identical; (skew) the converse: after the fork the two sides are advanced by different call shapes (one next_u32, d words inside the block, one whole block, next_u64 vs two next_u32, fill(8) vs two fill(4), random), then `a == b` is evaluated: if it says equal both must have identical futures under the probe suffix, and two Hc128Rng at different read positions of the same block must compare unequal; (bitflip) one bit - or the same bit (mostly the top bit) of two different words, differences that cancel in a checksum-style comparison - of the stored bincode image of a non-buffered generator or of IsaacCore/Isaac64Core is flipped (anywhere, or in the trailing scalar fields a/b/c) and the image deserialised: if original == flipped their futures must be identical; (core) Hc128Core/IsaacCore/Isaac64Core: clone (made with clone(), or with clone_from() into an unrelated core of the same or another age) == original, identical generate() blocks in lock-step, and cores compared after one side ran k extra generate() calls; (isaac_array) two result buffers differing in exactly one element must be unequal, equal contents equal. distinct_nontrivial = distinct (type, fork buffer index, half flag, pair-construction kind, == verdict) signatures. `==`/`!=` are probed per type (a type that gains PartialEq is compared from then on) and every `==` is also evaluated on clones placed at offsets 0/4/8/12 modulo 16 of one heap block: verdicts that disagree are a violation. Skews include next_u32 vs next_u64 (same index, different half flag). Skew pairs also include byte-matched shapes: both sides hand out the same number of bytes through different numbers of words (4 x fill_bytes(1) vs next_u32, 4 x fill(3) vs 3 x fill(4), ...).".into()
     }
     fn assumptions(&self) -> Vec<String> {
         vec![
